@@ -24,6 +24,7 @@ class Minimiser:
         self.known = list(known)
         self.deadline = time.monotonic() + budget_s
         self.tried = 0
+        self.last_hashseed = None  # hash seed of the worker that confirmed the latest accepted candidate
 
     def test_many(self, cands):
         """Returns index of the first candidate (in order) that still fails, with its result."""
@@ -36,6 +37,7 @@ class Minimiser:
         for i, j in enumerate(jobs):
             r = res.get(j["job_id"])
             if r and r.get("violation") and _sig(r["violation"]) == self.sig:
+                self.last_hashseed = r.get("worker_hashseed")
                 return i, r
         return None, None
 
